@@ -1,12 +1,15 @@
 #!/bin/sh
-# usage: tools/sweep.sh <tier> <seed> [<seed> ...]   -> one verdict line per (check, seed)
+# usage: tools/sweep.sh <tier> <seed> [<seed> ...]   -> one verdict line per (check, seed); evidence of every run is kept under
+# sweep_out/<tier>-seed<seed>/ for tools/floor_audit.py.  IDS="C04 C11" restricts the checks.
 tier=$1; shift
 for sd in "$@"; do
-  for id in C01 C02 C03 C04 C05 C06 C07 C08 C09 C10 C11 C12 C13 C14 C15 C16 C17 C18 C19 C20; do
+  mkdir -p sweep_out/$tier-seed$sd
+  for id in ${IDS:-C01 C02 C03 C04 C05 C06 C07 C08 C09 C10 C11 C12 C13 C14 C15 C16 C17 C18 C19 C20}; do
     s=$(date +%s)
     out=$(VERIF_SEED=$sd ./check $id --tier $tier 2>&1)
     rc=$?
     e=$(date +%s)
+    cp evidence/$id.json sweep_out/$tier-seed$sd/ 2>/dev/null
     echo "seed=$sd $id rc=$rc $((e-s))s $(echo "$out" | grep -E '^(HELD|VIOLATION|INCONCLUSIVE)' | head -2 | tr '\n' ' ' | cut -c1-220)"
     if [ $rc -ne 0 ]; then echo "$out" | tail -12 | cut -c1-700 | sed 's/^/    | /'; fi
   done
